@@ -8,7 +8,16 @@ use crate::oracle::NEnd;
 use crate::projects::*;
 use serde_json::{Value, json};
 
-pub fn all_projects() -> Vec<Project> {
+pub fn all_projects() -> &'static Vec<Project> {
+    static ALL: std::sync::OnceLock<Vec<Project>> = std::sync::OnceLock::new();
+    ALL.get_or_init(|| {
+        let mut v = fixed_projects();
+        v.extend(dag_projects());
+        v
+    })
+}
+
+fn fixed_projects() -> Vec<Project> {
     let mut v = corpus_projects();
     v.extend(generated_projects());
     v.extend(erroneous_projects());
@@ -31,11 +40,14 @@ impl Family for SepComp {
         120
     }
     fn rule(&self) -> &'static str {
-        "projects = the 8 recorded multi-package corpus projects + 6 generated projects over {chain, diamond, fan-in, fan-out, two files per package} with cross-package generic fns, generic enums, structs, traits, impls in the trait's or the type's package, bound-generic code over a foreign trait + 4 ill-typed variants (error in leaf / middle / root); for each project every topological build order (<= 24) x {build only, check before build}; artifacts are written to and re-read from *.interface / *.core files; oracle: link succeeds iff whole-program compile succeeds; Go(link) and Go(whole) both pass the Go checker and print the same output (= the recorded output for corpus projects); check and build emit the same interface; every build order gives byte-identical artifacts. states = (packages built, artifact bytes) visited, transitions = check/build/link calls. non-trivial = projects with >= 2 packages; distinct = distinct (project, order, mode)"
+        "projects = the 8 recorded multi-package corpus projects + 6 generated projects over {chain, diamond, fan-in, fan-out, two files per package} with cross-package generic fns, generic enums, structs, traits, impls in the trait's or the type's package, bound-generic code over a foreign trait + 4 ill-typed variants (error in leaf / middle / root) + one project per import DAG on 5 packages in which Main reaches every package (<= 4 edges, plus 5-edge ones in one naming, in quick; all in thorough) x 2 directory namings x {well-typed, every leaf ill-typed}; for each project every topological build order (<= 24) x {build only, check before build}; artifacts are written to and re-read from *.interface / *.core files; oracle: link succeeds iff whole-program compile succeeds; Go(link) and Go(whole) both pass the Go checker and print the same output (= the recorded output for corpus projects); check and build emit the same interface; every build order gives byte-identical artifacts. states = (packages built, artifact bytes) visited, transitions = check/build/link calls. non-trivial = projects with >= 2 packages; distinct = distinct (project, order, mode)"
     }
-    fn cases(&self, _tier: Tier) -> Box<dyn Iterator<Item = Value> + '_> {
-        let n = all_projects().len();
-        Box::new((0..n).map(|i| json!({"project": i})))
+    fn cases(&self, tier: Tier) -> Box<dyn Iterator<Item = Value> + '_> {
+        let nf = fixed_projects().len();
+        // DAG projects: well-typed and ill-typed-leaf variants (a misnamed package is a discovery
+        // fault, which separate compilation - driven package by package - never sees)
+        let dag: Vec<usize> = dag_specs().iter().enumerate().filter(|(_, sp)| sp.variant < 2 && dag_in_tier(sp, tier == Tier::Quick)).map(|(i, _)| nf + i).collect();
+        Box::new((0..nf).chain(dag.into_iter()).map(|i| json!({"project": i})))
     }
     fn run(&self, case: &Value, ctx: &mut Ctx) -> Report {
         let mut rep = Report::default();
